@@ -23,7 +23,8 @@ RULE = ('all (format table, record kind, field) x value alphabet (reals: sign x 
         'with full-width sentinels elsewhere, and None at the field / at each other position; plus the dictionary route '
         '(write_value_line -> read_value_line into a fresh dictionary) for every record kind with unique field names, '
         'each field zero or absent; plus the crossed units: every PAIR of fields of a record kind (thorough: also every three '
-        'adjacent fields) each at absent / zero / widest-that-fits / narrowest-that-does-not, both signs; a case is non-trivial '
+        'adjacent fields) each at absent / zero / widest-that-fits / narrowest-that-does-not, both signs; and the history '
+        'units: one long-lived parser per table used for every ordered pair of record kinds in turn; a case is non-trivial '
         'when the value under test is not None; distinct = distinct (table, record, field, value, None-position)')
 ASSUMPTIONS = ['records are written and parsed through fixed_format_file.write_values_to_string / parse_string of the '
                'parser classes the library itself instantiates (t2data_parser, t2_extra_precision_data_parser, '
@@ -31,9 +32,11 @@ ASSUMPTIONS = ['records are written and parsed through fixed_format_file.write_v
                'reference column positions are the cumulative absolute widths of the format strings',
                'reference value of a printed real is ref/fortnum.parse_real (exact decimal -> nearest double)']
 BOUNDS = {'quick': {'exponents': 'boundary set of 25 decimal exponents in -120..120', 'none_pairs': 'one value',
-                    'crossed': 'every pair of fields of every record kind x reduced boundary alphabet (4-12 values per field)'},
+                    'crossed': 'every pair of fields of every record kind x reduced boundary alphabet (4-12 values per field)',
+                    'sequences': 'one parser object: every ordered pair of record kinds of a table'},
           'thorough': {'exponents': 'all 241 decimal exponents -120..120', 'none_pairs': 'three values',
-                       'crossed': 'every pair of fields x wider boundary alphabet; every three adjacent fields x reduced alphabet'}}
+                       'crossed': 'every pair of fields x wider boundary alphabet; every three adjacent fields x reduced alphabet',
+                       'sequences': 'every ordered pair of record kinds, first record plain and over-wide; every ordered triple whose last two kinds have equally many fields'}}
 
 MANT = [1.0, 1.5, 5.0, 9.5, 1.2345678901234567, 9.999999999999999]
 QUICK_EXP = [-120, -101, -100, -99, -98, -38, -10, -9, -5, -4, -3, -2, -1, 0, 1, 2, 3, 4, 5, 9, 10, 38, 99, 100, 120]
@@ -124,6 +127,8 @@ def units(tier):
         for rec_kind in parser.specification:
             us.append((tname, rec_kind))
             us.append(('pairs', tname, rec_kind))
+    for tname in tables():
+        us.append(('sequences', tname))
     us.append(('dict-path',))
     us.append(('two-parsers',))
     us.append(('containers-and-files',))
@@ -697,7 +702,81 @@ def pairs_unit(unit, tier, rec):
     rec.count('triple_cases', t)
 
 
+def sequences_unit(unit, tier, rec):
+    """History of ONE parser object: for every ordered pair (a, b) of record kinds of a table, a long-lived parser
+    first writes and parses a record of kind a (all sentinels; thorough: also with its first live field over-wide,
+    refused or fitted), then a record of kind b, which must obey the reference exactly as from a fresh parser -
+    whatever a memo of widths, columns or converters remembered from a.  Thorough adds every ordered triple
+    whose middle kind has the same number of fields as the last (the coarsest plausible memo key)."""
+    _, tname = unit
+    parser = tables()[tname]
+    kinds = list(parser.specification)
+    info = {}
+    for k in kinds:
+        names, fmts = parser.specification[k]
+        cols, width = ref_columns(fmts)
+        info[k] = (names, fmts, cols, width)
+    n = 0
+
+    def prime(k, wide):
+        names, fmts, cols, width = info[k]
+        vals = [sentinel(*split_fmt(f)[:2], pos=j) for j, f in enumerate(fmts)]
+        if wide:
+            for j, f in enumerate(fmts):
+                typ, w, prec, left = split_fmt(f)
+                if typ != 'x':
+                    vals[j] = {'d': 10 ** w, 's': 'Q' * (w + 1)}.get(typ, -9.999999999999999e99)
+                    break
+        try:
+            parser.parse_string(parser.write_values_to_string(vals, k), k)
+        except core.CaseTimeout:
+            raise
+        except Exception:
+            pass
+
+    def judge(b, hist):
+        names, fmts, cols, width = info[b]
+        viol, oc = eval_multi_case(parser, tname, b, names, fmts, cols, width, {})
+        for sig, what in viol:
+            rec.violation(sig.replace('|crossed', '|after-other-record-kind'), what + ' (same parser used before for %s)' % (hist,),
+                          {'sequence': tname, 'history': hist, 'record': b})
+        # one live field at its widest fitting / first non-fitting value, after the history
+        for j, f in enumerate(fmts):
+            typ, w, prec, left = split_fmt(f)
+            if typ == 'x':
+                continue
+            for v in pair_values(typ, w, prec, 'quick')[1:]:
+                viol, oc = eval_multi_case(parser, tname, b, names, fmts, cols, width, {j: v})
+                for sig, what in viol:
+                    rec.violation(sig.replace('|crossed', '|after-other-record-kind'), what + ' (same parser used before for %s)' % (hist,),
+                                  {'sequence': tname, 'history': hist, 'record': b})
+            break
+
+    wides = (False, True) if tier == 'thorough' else (False,)
+    for a in kinds:
+        for b in kinds:
+            for wide in wides:
+                prime(a, wide)
+                judge(b, [a + ('*' if wide else '')])
+                n += 1
+                rec.case((tname, 'seq', a, b, wide), outcome='sequence')
+    if tier == 'thorough':
+        for c in kinds:
+            for b in kinds:
+                if b == c or len(info[b][1]) != len(info[c][1]):
+                    continue
+                for a in kinds:
+                    prime(a, False)
+                    prime(b, False)
+                    judge(c, [a, b])
+                    n += 1
+                    rec.case((tname, 'seq3', a, b, c), outcome='sequence3')
+    rec.count('sequence_cases', n)
+
+
 def run_unit(unit, tier, rec):
+    if unit[0] == 'sequences':
+        return sequences_unit(unit, tier, rec)
     if unit[0] == 'pairs':
         return pairs_unit(unit, tier, rec)
     if unit[0] == 'two-parsers':
@@ -782,6 +861,10 @@ def replay(case):
     if 'containers' in case or 'file_route' in case:
         r = core.Rec()
         containers_and_files_unit(r, 'quick')
+        return [(sig, e['what']) for sig, e in r.viol.items()]
+    if 'sequence' in case:
+        r = core.Rec()
+        sequences_unit(('sequences', case['sequence']), 'thorough' if (len(case['history']) > 1 or case['history'][0].endswith('*')) else 'quick', r)
         return [(sig, e['what']) for sig, e in r.viol.items()]
     if 'two_parsers' in case or 'two_tables' in case:
         r = core.Rec()
